@@ -138,12 +138,12 @@ func TestHashDetectsMutations(t *testing.T) {
 			*m.EntryPoints[0].Function.Arguments[1].Binding = b
 			return true
 		},
-		"global name":   func(m *ir.Module) bool { m.GlobalVariables[0].Name = "out2"; return true },
-		"local name":    func(m *ir.Module) bool { m.EntryPoints[0].Function.LocalVars[0].Name = "xx"; return true },
-		"named expr":    func(m *ir.Module) bool { m.EntryPoints[0].Function.NamedExpressions[9999] = "q"; return true },
-		"array size":    func(m *ir.Module) bool { *m.Types[findArray(m)].Inner.(ir.ArrayType).Size.Constant = 5; return true },
-		"workgroup":     func(m *ir.Module) bool { m.EntryPoints[0].Workgroup[2] = 3; return true },
-		"switch value":  func(m *ir.Module) bool { return mutateSwitch(m) },
+		"global name":  func(m *ir.Module) bool { m.GlobalVariables[0].Name = "out2"; return true },
+		"local name":   func(m *ir.Module) bool { m.EntryPoints[0].Function.LocalVars[0].Name = "xx"; return true },
+		"named expr":   func(m *ir.Module) bool { m.EntryPoints[0].Function.NamedExpressions[9999] = "q"; return true },
+		"array size":   func(m *ir.Module) bool { *m.Types[findArray(m)].Inner.(ir.ArrayType).Size.Constant = 5; return true },
+		"workgroup":    func(m *ir.Module) bool { m.EntryPoints[0].Workgroup[2] = 3; return true },
+		"switch value": func(m *ir.Module) bool { return mutateSwitch(m) },
 		"local init nil": func(m *ir.Module) bool {
 			for i := range m.EntryPoints[0].Function.LocalVars {
 				if m.EntryPoints[0].Function.LocalVars[i].Init != nil {
